@@ -421,7 +421,13 @@ MiscTrees == <<
   Pol("-", Pol("-", Lit("7"))), Pol("-", Pol("+", Pol("-", Lit("7")))), Bin("-", Lit("7"), Pol("-", Lit("2"))),
   Bin("-", Pol("-", Lit("7")), Pol("-", Pol("-", Lit("2")))),
   Bin("/", Lit("6"), Lit("3")), Bin("/", Bin("/", Lit("12"), Lit("2")), Lit("3")), Bin("/", Lit("12"), Bin("/", Lit("6"), Lit("3"))),
-  Bin("*", Bin("/", Lit("6"), Lit("3")), Lit("2")), Bin("/", Lit("6"), Bin("*", Lit("3"), Lit("2")))
+  Bin("*", Bin("/", Lit("6"), Lit("3")), Lit("2")), Bin("/", Lit("6"), Bin("*", Lit("3"), Lit("2"))),
+  (* number literals at and beyond the Integer range under a sign: whatever Compile says of one rendering it must say of *)
+  (* the other (a sign folded into an adjacent literal must also be folded through parentheses, or not at all)          *)
+  Lit("2147483648"), Pol("-", Lit("2147483648")), Pol("+", Lit("2147483648")), Pol("-", Pol("-", Lit("2147483648"))),
+  Bin("-", Lit("0"), Lit("2147483648")), Bin("+", Pol("-", Lit("2147483648")), Lit("1")), Pol("-", Lit("2147483647")),
+  Pol("-", Lit("99999999999")), Pol("-", Lit("0.5")), Pol("-", Lit("0")), Bin("=", Pol("-", Lit("0")), Lit("0")),
+  Inv(Pol("-", Lit("2147483648")), Fn("toString", <<>>)), Idx(Pol("-", Lit("2147483648")), Lit("0"))
 >>
 
 (* Shapes: the unit the generator explores.  Every shape yields candidate  *)
